@@ -4,8 +4,11 @@
    AETables!Frags), to a FIX-POINT of the reachable product states: documents of unbounded length.
 
    Invariant of interest:  Sync == Compatible(lexer context, inURL, reference slot)  (a CONFINEMENT
-   table, AETables).  A desynchronisation cascades, so exploration is pruned behind the first
-   incompatible state (history flag `broken`; such states are terminal), and the finding is named
+   table, AETables) or the two machines strictly Agree (then an incompatible pair is a weakness of
+   the escaper of a synchronised context, e.g. spaces kept in the tag context: a hole there is a
+   candidate, but the machines are in step and exploration goes on).  A desynchronisation
+   cascades, so exploration is pruned behind the first state that neither agrees nor is compatible
+   (history flag `broken`; such states are terminal), and the finding is named
    by its BREAKING EDGE `edge` = <<context, url, slot, kind of the last compatible product state,
    fragment>>.  `root` names the edge at which STRICT agreement was lost on the way (the root cause
    of the desynchronisation that later becomes incompatible).
@@ -25,7 +28,7 @@ vars == <<lex, ref, doc, broken, edge, root>>
 
 Class(l, h) == <<LCtxAtHole(l), LURLAtHole(l), Slot(h), SlotKind(h)>>
 CompatibleAt(l, h) == Compatible(LCtxAtHole(l), LURLAtHole(l), Slot(h), SlotKind(h))
-AgreeAt(l, h) == LCtxAtHole(l) = "inert" \/ Agree(LCtxAtHole(l), LURLAtHole(l), Slot(h), SlotKind(h))
+AgreeAt(l, h) == Agree(LCtxAtHole(l), LURLAtHole(l), Slot(h), SlotKind(h))
 Sync == ~broken
 
 Init == lex = L0 /\ ref = HNorm(H0) /\ doc = <<>> /\ broken = FALSE /\ edge = <<>> /\ root = <<>>
@@ -37,8 +40,8 @@ Step(f) ==
   IN /\ lex' = l2
      /\ ref' = h2
      /\ doc' = Append(doc, f)
-     /\ broken' = ~ok
-     /\ edge' = IF ok THEN <<>> ELSE Class(lex, ref) \o <<f>>
+     /\ broken' = (~ok /\ ~AgreeAt(l2, h2))
+     /\ edge' = IF ok \/ AgreeAt(l2, h2) THEN <<>> ELSE Class(lex, ref) \o <<f>>
      /\ root' = IF AgreeAt(l2, h2) THEN <<>>
                 ELSE IF root # <<>> THEN root ELSE Class(lex, ref) \o <<f>>
 
